@@ -297,6 +297,27 @@ func c06PPOracle(c c06PPCase) error {
 			return fmt.Errorf("run %d of pp %v differs from the first: %s", k, args, firstDiffBytes(first.Out, again.Out))
 		}
 	}
+	// the HTML file written by pp, twice
+	var htmlRef []byte
+	for k := 0; k < 2; k++ {
+		hf, err := os.CreateTemp(os.Getenv("VERIF_WORK"), "out*.html")
+		if err != nil {
+			return fmt.Errorf("HARNESS: %v", err)
+		}
+		hf.Close()
+		_, err = runPP(x, "-rebase=false", "-html", hf.Name())
+		b, _ := os.ReadFile(hf.Name())
+		os.Remove(hf.Name())
+		if err != nil {
+			return err
+		}
+		b = maskHTML(b)
+		if k == 0 {
+			htmlRef = b
+		} else if !bytes.Equal(htmlRef, b) {
+			return fmt.Errorf("pp -html differs between two runs: %s", firstDiffBytes(htmlRef, b))
+		}
+	}
 	// and the library in separate processes
 	f, err := os.CreateTemp(os.Getenv("VERIF_WORK"), "in*.txt")
 	if err != nil {
